@@ -170,6 +170,8 @@ pub enum Outcome {
 pub struct RunResult {
     /// every grant made, in order: (thread, what was granted)
     pub grants: Vec<(usize, Want)>,
+    /// parallel to `grants`: the locks the thread held when the grant was made
+    pub grants_held: Vec<Vec<(usize, &'static str)>>,
     pub outcome: Outcome,
     pub choices: Vec<usize>,
     pub status: Vec<Status>,
@@ -226,6 +228,7 @@ pub fn run(
 
     let mut choices = Vec::new();
     let mut all_grants: Vec<(usize, Want)> = Vec::new();
+    let mut all_held: Vec<Vec<(usize, &'static str)>> = Vec::new();
     let mut steps = 0usize;
     let mut last: Option<(usize, Want)> = None;
     let outcome;
@@ -306,6 +309,7 @@ pub fn run(
                 Status::Running => false,
             });
         let enabled: Vec<usize> = if wp_deadlock { Vec::new() } else { enabled };
+        let held_now = held.clone();
         let view = View {
             step: steps,
             status: status.clone(),
@@ -332,6 +336,7 @@ pub fn run(
         };
         if let Some(g) = last {
             all_grants.push(g);
+            all_held.push(held_now[t].clone());
         }
         let mut g = STATE.lock().unwrap();
         let st = g.as_mut().unwrap();
@@ -352,6 +357,7 @@ pub fn run(
     CV.notify_all();
     RunResult {
         grants: all_grants,
+        grants_held: all_held,
         outcome,
         choices,
         status: final_status,
